@@ -250,6 +250,15 @@ class MapCell:
         self.order = order     # optional z3 Seq of keys (insertion order)
 
 
+class SetCell:
+    """set with symbolic members: characteristic array K -> Bool."""
+    __slots__ = ('kind', 'arr')
+
+    def __init__(self, kind, arr):
+        self.kind = kind
+        self.arr = arr
+
+
 class ObjCell:
     __slots__ = ('cls', 'fields', 'spec')
 
